@@ -24,7 +24,7 @@ out = {
     "files": meta.get("files"),
     "origin": "independent sub-agent that saw only the property text and a scratch worktree of /repo (nothing from /verif)",
     "confirmed_by_me": {
-        "how": f"tools/seedtest.sh {ID} {k}: patch applied in the scratch worktree /tmp/seed-{ID}: repository tests (pkg/exec, pkg/io, pkg/runtime, pkg/syntax/..., pkg/value) pass; demo/run.sh FAILS with the change and PASSES without it; then `git -C /repo apply`, ./check, `git -C /repo checkout -- .`",
+        "how": f"tools/seedtest.sh {ID} {k}: patch applied in the scratch worktree /tmp/seed-{ID}: repository tests (pkg/exec, pkg/io, pkg/runtime, pkg/syntax/..., pkg/value) pass; demo/run.sh FAILS with the change and PASSES without it; then ./check in scratch mode against the changed worktree (VERIF_SCRATCH_REPO)",
         "repo_tests_pass_with_change": True,
         "demo_fails_with_change": True,
         "demo_passes_without_change": True,
